@@ -172,6 +172,17 @@ func c13Case(c *Ctx, id, stack string, items []string) {
 							fh.Close()
 							fail("hidden-opened:sweep-Open", "after step %d (%s): Open(%s) through the filter succeeded", i, it, p)
 						}
+						// ... under every spelling the source cleans to the same file (reads only: Stat, a
+						// read-only OpenFile)
+						for _, sp := range []string{p + "/.", p + "/", "/." + p, p + "/x/.."} {
+							if fi, err := through.Stat(sp); err == nil {
+								fail("hidden-reported:sweep-Stat:spelling", "after step %d (%s): Stat(%s) through the filter = %s", i, it, sp, fiExact(fi))
+							}
+							if fh, err := through.OpenFile(sp, os.O_RDONLY, 0); err == nil {
+								fh.Close()
+								fail("hidden-opened:sweep-OpenFile:spelling", "after step %d (%s): OpenFile(%s, O_RDONLY) through the filter succeeded", i, it, sp)
+							}
+						}
 						continue
 					}
 					a, errA := through.Stat(p)
